@@ -115,6 +115,12 @@ Theorem C05_body : forall m cfg fs r,
 Proof. exact body_if_copied. Qed.
 Print Assumptions C05_body.
 
+(* the source as it is now copies the bytes (fix 91740ae): the body clause holds in
+   full; this stops compiling if either print goes back to a %s conversion *)
+Theorem C05_body_current : forall m cfg fs r, step_log m cfg fs r = spec_body m cfg fs r.
+Proof. exact (fun m cfg fs r => body_if_copied m cfg fs r eq_refl eq_refl). Qed.
+Print Assumptions C05_body_current.
+
 (* D14: as shipped, a NUL byte in the last lines cuts the excerpt - of
    "l1\nl2<NUL>mid\nlast\n" only "l1\nl2" is printed *)
 Theorem C05_body_refuted :
